@@ -41,6 +41,7 @@ func main() {
 	regone := fs.Bool("regone", false, "only v0 has an EVM address at genesis")
 	signed := fs.Bool("signed", false, "messages travel as signed transactions through the installed ante handler")
 	signedhalf := fs.Bool("signedhalf", false, "every second history runs in signed mode")
+	minthalf := fs.Bool("minthalf", false, "every second history starts minting in its first block")
 	only := fs.Int("only", 0, "run only this history (1-based)")
 	mintinit := fs.Bool("mintinit", false, "governance starts minting in the bootstrap block")
 	_ = fs.Parse(os.Args[2:])
@@ -74,7 +75,7 @@ func main() {
 	case "c07sm":
 		err = h.RunC07SM(*cases, *trace, *stats, *seed, *proj)
 	case "hist":
-		err = h.RunHist(*trace, *stats, h.HistDriverOpts{N: *n, Seed: *seed, Proj: *proj, Only: *only, SignedHalf: *signedhalf,
+		err = h.RunHist(*trace, *stats, h.HistDriverOpts{N: *n, Seed: *seed, Proj: *proj, Only: *only, SignedHalf: *signedhalf, MintHalf: *minthalf,
 			Opts: h.HistOpts{Blocks: *blocks, MaxOpsPerBlk: *maxops, Boundary: *boundary, GovOps: *gov, NoBadValues: *nobad, TimeJumps: *jumps,
 				DisputeBias: *dbias, StakingBias: *sbias, BridgeBias: *bbias, MintInitEarly: *mintinit, ValStatus: *valstatus, Stories: *stories, Probe: *probe, ValsetBias: *vbias}, World: h.WorldOpts{RegisterOnlyFirst: *regone, Chain: h.ChainOpts{Signed: *signed}}})
 	default:
